@@ -18,7 +18,7 @@
 
 use poulpy_hal::{
     api::{ModuleLogN, ScratchAvailable, VecZnxNormalizeTmpBytes},
-    layouts::{Backend, CyclotomicOrder, GaloisElement, Module, Scratch, VecZnx, galois_element},
+    layouts::{Backend, CyclotomicOrder, GaloisElement, Module, Scratch, galois_element},
 };
 
 pub use crate::api::GLWETrace;
@@ -69,21 +69,19 @@ where
         assert_eq!(self.n() as u32, a_infos.n());
         assert_eq!(self.n() as u32, key_infos.n());
 
-        let lvl_0: usize = self.glwe_automorphism_tmp_bytes(res_infos, a_infos, key_infos);
-        if a_infos.base2k() != key_infos.base2k() {
-            let lvl_1: usize = VecZnx::bytes_of(
-                self.n(),
-                (key_infos.rank_out() + 1).into(),
-                res_infos.max_k().min(a_infos.max_k()).div_ceil(key_infos.base2k()) as usize,
-            ) + self.vec_znx_normalize_tmp_bytes();
-            return lvl_0 + lvl_1;
-        }
-
-        let lvl_1: usize = if res_infos.max_k() > a_infos.max_k() {
-            GLWE::<Vec<u8>>::bytes_of_from_infos(res_infos)
-        } else {
-            GLWE::<Vec<u8>>::bytes_of_from_infos(a_infos)
+        // The levels run on a temporary in the key radix holding max(a.max_k(), res.max_k()) bits; the input is
+        // normalised into it and the result normalised out of it.
+        let tmp_infos: GLWELayout = GLWELayout {
+            n: res_infos.n(),
+            base2k: key_infos.base2k(),
+            k: a_infos.max_k().max(res_infos.max_k()),
+            rank: res_infos.rank(),
         };
+        let lvl_0: usize = self
+            .glwe_automorphism_tmp_bytes(&tmp_infos, &tmp_infos, key_infos)
+            .max(self.glwe_shift_tmp_bytes())
+            .max(self.glwe_normalize_tmp_bytes());
+        let lvl_1: usize = GLWE::<Vec<u8>>::bytes_of_from_infos(&tmp_infos);
 
         lvl_0 + lvl_1
     }
